@@ -141,7 +141,7 @@ var hangs int32
 func WaitOrHang(done <-chan struct{}) bool {
 	b := HangBound
 	if atomic.LoadInt32(&hangs) >= 3 {
-		b = HangBound / 10
+		b = HangBound / 4
 	}
 	select {
 	case <-done:
